@@ -232,6 +232,11 @@ func (in *Interp) intrinsic(fr *Frame, name string, args []Value, fn *ssa.Functi
 	if strings.HasPrefix(name, svPath+".") {
 		return in.svCall(fr, name[len(svPath)+1:], args, fn)
 	}
+	if strings.Contains(name, "reflect.") {
+		if r, ok := in.reflectIntrinsic(fr, name, args); ok {
+			return r
+		}
+	}
 	ts := in.ts
 	f64 := func(i int) (float64, *Term) {
 		switch a := args[i].(type) {
@@ -608,21 +613,6 @@ func (in *Interp) intrinsic(fr *Frame, name string, args []Value, fn *ssa.Functi
 			}
 		}
 		return nil
-
-	// ---------------- reflect (minimal: pointer identity)
-	case "reflect.ValueOf":
-		return args[0]
-	case "(reflect.Value).Pointer":
-		switch p := args[0].(Iface).v.(type) {
-		case Ptr:
-			if p.c == nil {
-				return int64(0)
-			}
-			return in.addrOf(p.c)
-		}
-		panic(pathAbort{"unsupported: reflect.Value.Pointer of a non-pointer"})
-	case "reflect.TypeOf":
-		return Iface{t: hostT, v: Host{args[0].(Iface).t}}
 
 	// ---------------- time
 	case "(time.Time).String", "(time.Time).Format", "(time.Time).UnixNano", "(time.Time).Year", "(time.Time).IsZero":
@@ -1095,6 +1085,13 @@ func (in *Interp) formatArg(fr *Frame, directive string, verb byte, a Value) Val
 		return x.msg
 	case Host:
 		return fmt.Sprintf(directive, x.v)
+	case *RType:
+		return x.t.String()
+	case *RVal:
+		if x.t == nil {
+			return "<invalid reflect.Value>"
+		}
+		return in.formatArg(fr, directive, verb, Iface{t: x.t, v: x.v})
 	}
 	panic(pathAbort{fmt.Sprintf("unsupported: format %s of %T", directive, v)})
 }
